@@ -32,6 +32,8 @@ type ConcRun struct {
 	commits  int
 	commitOf []*concOp // in commit order
 	tainted  map[string]bool
+	tokens   map[int]uint64      // per reader task: continuation token
+	readers  map[int]*FeedReader // post-hoc verification state
 }
 
 type readLookup struct {
@@ -45,6 +47,15 @@ type readList struct {
 	ds   string
 	ents []string
 	err  error
+}
+type readTok struct {
+	ds     string
+	latest bool
+	limit  int
+	token  uint64
+	next   uint64
+	ents   []string
+	err    error
 }
 type readFeed struct {
 	ds    string
@@ -107,6 +118,21 @@ func (r *ConcRun) execOp(t *Task, co *concOp) {
 			}
 		}
 		co.readRes = rf
+	case "readTok":
+		co.readAt = r.commits
+		ds := h.Dataset(op.DS)
+		rt := &readTok{ds: op.DS, latest: op.Latest, limit: op.Limit, token: r.tokens[co.task]}
+		if ds != nil {
+			res, err := ds.GetChanges(rt.token, op.Limit, op.Latest)
+			rt.err = err
+			if err == nil {
+				rt.ents = canonList(h, res.Entities)
+				rt.next = res.NextToken
+				r.tokens[co.task] = res.NextToken
+			}
+		}
+		co.readRes = rt
+		r.Stats["reader_pages"]++
 	case "createDataset":
 		_, co.err = h.Dsm.CreateDataset(op.DS, nil)
 	case "deleteDataset":
@@ -142,7 +168,7 @@ func RunConcScenario(sc *Scenario) (vd *Verdict) {
 		_ = h.Close()
 		_ = os.RemoveAll(h.Dir)
 	}()
-	r := &ConcRun{Sc: sc, H: h, Stats: map[string]int64{}, tainted: map[string]bool{}}
+	r := &ConcRun{Sc: sc, H: h, Stats: map[string]int64{}, tainted: map[string]bool{}, tokens: map[int]uint64{}, readers: map[int]*FeedReader{}}
 	m := NewModel()
 	for _, d := range sc.Datasets {
 		if _, err := h.Dsm.CreateDataset(d, nil); err != nil {
@@ -295,13 +321,18 @@ func RunConcScenario(sc *Scenario) (vd *Verdict) {
 			continue
 		}
 		pool, _ := collectNames(sc)
-		if v := CheckLatest(h, m, name, pool, []int{2}); v != nil {
-			v.Oracle, v.Signature = "serial", "final-latest:"+v.Signature
-			fail(v)
-			return
+		if sc.Property == "C05" {
+			if v := CheckLatest(h, m, name, pool, []int{2}); v != nil {
+				v.Oracle, v.Signature = "serial", "final-latest:"+v.Signature
+				fail(v)
+				return
+			}
 		}
 		if v := CheckFeed(h, m, name, []int{2}); v != nil {
-			v.Oracle, v.Signature = "serial", "final-feed:"+v.Signature
+			if sc.Property == "C05" {
+				v.Oracle = "serial"
+			}
+			v.Signature = "final-feed:" + v.Signature
 			fail(v)
 			return
 		}
@@ -374,6 +405,24 @@ func (r *ConcRun) checkRead(m *Model, co *concOp) *Violation {
 		}
 		if co.op.Limit == 0 && len(rd.ents) != len(d.Latest) {
 			return viol(prop, "atomic-read", "list:partial-state", "task %d listing of %s after %d commits has %d entities, serial state has %d", co.task, rd.ds, co.readAt, len(rd.ents), len(d.Latest))
+		}
+	case *readTok:
+		if r.tainted[rd.ds] || m.DS[rd.ds] == nil {
+			return nil
+		}
+		r.Stats["reads_checked"]++
+		if rd.err != nil {
+			return viol(prop, "reader", "error", "GetChanges failed: %v", rd.err)
+		}
+		fr := r.readers[co.task]
+		if fr == nil {
+			fr = &FeedReader{DS: rd.ds, Latest: rd.latest}
+			r.readers[co.task] = fr
+		}
+		fr.Token = rd.token
+		if v := fr.Verify(m.DS[rd.ds], rd.ents, rd.next, rd.limit); v != nil {
+			v.Message = fmt.Sprintf("task %d page after %d commits: %s", co.task, co.readAt, v.Message)
+			return v
 		}
 	case *readFeed:
 		if r.tainted[rd.ds] || m.DS[rd.ds] == nil {
